@@ -237,6 +237,22 @@ func (e *Env) prepare(op *Op) (doc *ast.Document, text string, vars string, err 
 	return &d, text, vars, nil
 }
 
+// entityFeature: none | single | mixed (entity operation whose representations are of >= 2 types)
+func entityFeature(op *Op) string {
+	if len(op.Fed) == 0 {
+		return "none"
+	}
+	types := map[string]bool{}
+	gjson.ParseBytes(op.Values["representations"]).ForEach(func(_, v gjson.Result) bool {
+		types[v.Get("__typename").String()] = true
+		return true
+	})
+	if len(types) > 1 {
+		return "mixed"
+	}
+	return "single"
+}
+
 func fedConfigs(op *Op) plan.FederationFieldConfigurations {
 	var out plan.FederationFieldConfigurations
 	for _, f := range op.Fed {
@@ -255,7 +271,7 @@ func (e *Env) run(g *Gen, op *Op, memo *memoTransport) runResult {
 		res.sexp = common.L(append(head, common.L("q", common.QS(op.Print())), common.L("invalid", common.QS(err.Error())))...)
 		return res
 	}
-	head = append(head, common.L("q", common.QS(text)), common.L("vars", common.QS(vars)), common.L("shape", shape))
+	head = append(head, common.L("q", common.QS(text)), common.L("vars", common.QS(vars)), common.L("shape", shape), common.L("feat", entityFeature(op)))
 	cfg := grpcds.DataSourceConfig{Operation: doc, Definition: &e.schemaDoc, SubgraphName: "Products",
 		Compiler: e.compiler, Mapping: e.mapping, FederationConfigs: fedConfigs(op)}
 	ds, err := func() (d *grpcds.DataSource, err error) {
@@ -383,6 +399,9 @@ func jsonString(s string) string {
 	return string(b)
 }
 
+// percentage of groups generated with the unrestricted ("wild") profile
+var wildNum = 20
+
 // ---------------------------------------------------------------- groups
 type Group struct {
 	Ops []*Op `json:"ops"`
@@ -468,6 +487,12 @@ func (e *Env) genGroup(g *Gen, st *stats) *Group {
 	case x < 6:
 		mode = "entity"
 	}
+	g.Safe = !g.R.Chance(wildNum, 100)
+	if g.Safe {
+		st.modes["profile-safe"]++
+	} else {
+		st.modes["profile-wild"]++
+	}
 	st.modes[mode]++
 	g.uid, g.varN, g.aliasN, g.fragN = 0, 0, 0, 0
 	base := g.GenOp(mode)
@@ -495,9 +520,7 @@ func main() {
 		n := common.ArgInt(args, "n", 100)
 		out := common.NewOut(args["out"])
 		g := &Gen{S: env.schema, R: common.NewRand(seed)}
-		if forbid := os.Getenv("C20_FORBID"); forbid != "" {
-			g.ResolverOK = func(ctx string) bool { return !strings.ContainsAny(ctx, forbid) }
-		}
+		wildNum = common.ArgInt(args, "wild", wildNum)
 		for i := 0; i < n; i++ {
 			grp := env.genGroup(g, st)
 			out.Line(env.runGroup(g, grp, st))
